@@ -1,5 +1,6 @@
 // tree_props.hpp - C02 C03 C04 C08 C12 over tape-decoded API programs and snapshots
 #pragma once
+#include <fstream>
 #include "prog.hpp"
 #include <sys/wait.h>
 
@@ -108,10 +109,32 @@ static void heldHandlesAgree(Prog &p, const Ent &fresh, Ctx &ctx, const char *wh
     for (auto &h : p.heldGroups) { bool ok = false; try { ok = h.second && h.second.isValidEntity(); } catch (const std::exception &) {} if (ok) cmp(snapGroup(h.second), "group"); }
 }
 
-static void c02Reopen(Prog &p, Ctx &ctx, bool otherProc, const char *when) {
-    Ent before = snapshot(p.f);
-    heldHandlesAgree(p, before, ctx, when);
-    p.dropHeld();
+// blind = the tree before close is read from a byte copy of the flushed file, so that the file that is closed and
+// reopened has NOT been walked by getters beforehand (a getter that creates optional groups on the fly would
+// otherwise repair the file for the ReadOnly reopen - seeded C02-c)
+static void c02Reopen(Prog &p, Ctx &ctx, bool otherProc, const char *when, bool blind = false) {
+    Ent before;
+    if (blind) {
+        p.dropHeld();
+        p.f.flush();
+        std::string cp = p.path + ".cp";
+        {
+            std::ifstream in(p.path, std::ios::binary);
+            std::ofstream out(cp, std::ios::binary | std::ios::trunc);
+            out << in.rdbuf();
+        }
+        {
+            nix::File c = nix::File::open(cp, nix::FileMode::ReadWrite);
+            before = snapshot(c);
+            c.close();
+        }
+        unlink(cp.c_str());
+        ctx.count("blind_reopens");
+    } else {
+        before = snapshot(p.f);
+        heldHandlesAgree(p, before, ctx, when);
+        p.dropHeld();
+    }
     std::string beforeFlat = otherProc ? flatStr(before) : std::string();
     p.f.close();
     {
@@ -151,17 +174,18 @@ static void c02(Tape &t, Ctx &ctx) {
         if (i > 0 && t.exhausted()) break;
         if (t.chance(6)) {
             ctx.trace << "REOPEN ";
-            c02Reopen(p, ctx, false, "inside the history");
+            c02Reopen(p, ctx, false, "inside the history", t.chance(50));
             reopens++;
             continue;
         }
         StepInfo si = p.step();
         if (!si.threw && (si.is_delete || si.is_unlink) && si.returned_true) deletes++;
     }
-    Ent fin = snapshot(p.f);
+    bool otherProc = t.chance(40);
+    c02Reopen(p, ctx, otherProc, "at the end", t.chance(50));
+    Ent fin = snapshot(p.f); // after the reopen: nothing may walk the file before a blind close
     std::set<std::string> kinds = kindsIn(fin);
     size_t links = liveLinks(fin);
-    c02Reopen(p, ctx, t.chance(40), "at the end");
     p.finish();
     ctx.nontrivial = deletes >= 1 && kinds.size() >= 5 && links >= 1;
     if (reopens) ctx.count("with_inner_reopen");
